@@ -7,7 +7,7 @@ STUB_E1 = ["global allocator (deterministic auditing arena at a fixed address)",
 
 ASSUME_E1 = [
     "sampling: a clean batch is evidence, not proof",
-    "brood is exercised through the harness component zoo (plain, zero-sized, boxed, 64-aligned, one-byte, Vec-owning, 16-aligned) and the generated call-site catalogues for a 7-component registry (and, for C01 C03 C05 C06 C11 C13 C17, a 10-component registry with two identifier bytes)",
+    "brood is exercised through the harness component zoo (plain, zero-sized, boxed, 64-aligned, one-byte, Vec-owning, 16-aligned) and the generated call-site catalogues for a 7-component registry (and, for C01 C03 C05 C06 C11 C13 C17, a 10-component registry with two identifier bytes; for C01 C06 C11 C13 an 8-component registry with no padding bits)",
     "the reference model (BTreeMap of identifier -> component values) is trusted",
     "the dump hook (World::verif_dump, cfg brood_verif) reports the structures faithfully",
 ]
@@ -40,6 +40,11 @@ PLAN = {
 for _p, _q, _t in (("C01", 40000, 800000), ("C03", 40000, 800000), ("C05", 40000, 800000), ("C06", 40000, 800000), ("C13", 40000, 800000), ("C11", 40, 600), ("C17", 400, 6000)):
     for _tier, _n in (("quick", _q), ("thorough", _t)):
         PLAN[_p][_tier] = PLAN[_p][_tier] + [{"binary": "worldsim10", "package": "worldsim10", "profile": _p, "runs": _n, "chunks_per_job": 2 if _p not in ("C11", "C17") else 4}]
+
+# The 8-component registry: exactly one identifier byte, no padding bits.
+for _p, _q, _t in (("C01", 30000, 600000), ("C06", 30000, 600000), ("C13", 30000, 600000), ("C11", 30, 400)):
+    for _tier, _n in (("quick", _q), ("thorough", _t)):
+        PLAN[_p][_tier] = PLAN[_p][_tier] + [{"binary": "worldsim8", "package": "worldsim8", "profile": _p, "runs": _n, "chunks_per_job": 2 if _p != "C11" else 4}]
 
 SCHED_BINS = [f"schedsim-{i:02d}" for i in range(16)]
 
